@@ -13,10 +13,10 @@ import (
 func init() {
 	register(&PropRules{
 		ID:      "C01",
-		Explain: "Password verdict tracks the last acknowledged write — structural part: (C01.1) password identity: from every exported store entry point (Dir.AddUser/UpdateUser/Init/Authenticate, UserHash.Add/Update/Authenticate) to the password operand of each KDF call (argon2.IDKey in Generate and Check; scryptauth Gen/Check and, inside the dependency, scrypt.Key) the value is the parameter itself up to string→[]byte — no slicing, trimming, folding, and the temporary []byte copy is not written (e.g. cleared) before the callee reads it; (C01.2–C01.4) the verdict can be true only through parameter-set lookup, algorithm match and a constant-time comparison of the whole KDF output with the whole stored digest (shared with C02.1); (C01.5) file-name agreement: every user-file path is Join(BaseDir,user)+{.admin|.user}; getFilename's extension is decided by its flag; Exists consults .admin first and reports admin only for it, then .user; Remove unlinks both extensions of the same stem; SetAdmin renames between exactly these two in the direction of its argument; fileExists reports 'absent' only on IsNotExist; (C01.6) the reported admin flag and last-change are those of the record that was checked, and List reports the entry's own extension flag and time. Seed round 5: (C01.8) the converse of C01.2 — on every path of UserHash.Authenticate the verdict is the first result of the parameter-set's Hasher.Check for this call, or the error result is known non-nil; a refusal with a nil error that was not computed from the password makes a successfully written password unusable.",
+		Explain: "Password verdict tracks the last acknowledged write — structural part: (C01.1) password identity: from every exported store entry point (Dir.AddUser/UpdateUser/Init/Authenticate, UserHash.Add/Update/Authenticate) to the password operand of each KDF call (argon2.IDKey in Generate and Check; scryptauth Gen/Check and, inside the dependency, scrypt.Key) the value is the parameter itself up to string→[]byte — no slicing, trimming, folding, and the temporary []byte copy is not written (e.g. cleared) before the callee reads it; (C01.2–C01.4) the verdict can be true only through parameter-set lookup, algorithm match and a constant-time comparison of the whole KDF output with the whole stored digest (shared with C02.1); (C01.5) file-name agreement: every user-file path is Join(BaseDir,user)+{.admin|.user}; getFilename's extension is decided by its flag; Exists consults .admin first and reports admin only for it, then .user; Remove unlinks both extensions of the same stem; SetAdmin renames between exactly these two in the direction of its argument; fileExists reports 'absent' only on IsNotExist; (C01.6) the reported admin flag and last-change are those of the record that was checked, and List reports the entry's own extension flag and time. Seed round 5: (C01.8) the converse of C01.2 — on every path of UserHash.Authenticate the verdict is the first result of the parameter-set's Hasher.Check for this call, or the error result is known non-nil; a refusal with a nil error that was not computed from the password makes a successfully written password unusable; likewise in the two hashers' Check a refusal without error is the digest comparison's outcome (ConstantTimeCompare != 1) or the dependency's Check results handed on together.",
 		Undec:   []string{"correctness of scrypt / argon2id / HMAC (trusted)", "closure of the verdict under arbitrary operation histories and file-system behaviour", "the PBKDF2 key-equivalence classes named in the property"},
 		Run:     runC01,
-		Floors:  map[string]int{"C01.1": 10, "C01.2": 4, "C01.5": 5, "C01.8": 1},
+		Floors:  map[string]int{"C01.1": 10, "C01.2": 4, "C01.5": 5, "C01.8": 3},
 	})
 }
 
@@ -335,7 +335,9 @@ func c015(c *an.Ctx, p *an.Prog) {
 // is the first result of the parameter-set's Hasher.Check for this call, or the error result is known non-nil (the record
 // could not be found, read or interpreted). A refusal with a nil error that was not computed from the password (an early
 // "cannot be valid" return) makes a successfully written password unusable.
-// Not decided here: that each hasher's Check refuses only on a digest mismatch (value level; its accepting side is C02.1).
+// The same for the two hashers' Check: a refusal without error is the outcome of the digest comparison (argon2id:
+// under ConstantTimeCompare != 1; scrypt: the dependency's Check results handed on together). Value-level correctness of the
+// comparison itself is not decided.
 func c018(c *an.Ctx, p *an.Prog) {
 	fn := p.Method("/store", "UserHash", "Authenticate")
 	if !need(c, "C01.8", fn, "store.(*UserHash).Authenticate") {
@@ -363,4 +365,45 @@ func c018(c *an.Ctx, p *an.Prog) {
 		bad = append(bad, "path limit")
 	}
 	c.Check(len(bad) == 0 && n > 0 && nCheck > 0, "C01.8", fnKey(fn)+"|refusal-provenance", p.Pos(fn.Pos()), fmt.Sprintf("%d paths: the verdict is Hasher.Check's first result, or an error is reported", n), strings.Join(uniqS(bad), "; "))
+	// the module's own hashers: a refusal without error is the digest comparison's (argon2id) or the dependency's (scrypt)
+	for _, h := range []string{"Argon2IDHasher", "ScryptAuthHasher"} {
+		ck := p.Method("/store", h, "Check")
+		if !need(c, "C01.8", ck, "store.(*"+h+").Check") {
+			continue
+		}
+		var bad []string
+		n := 0
+		er := an.EnumPaths(ck, nil, nil, func(s *an.PathState) {
+			ret := lastReturn(s)
+			if ret == nil || len(ret.Args) != 2 {
+				return
+			}
+			n++
+			v, e := ret.Args[0], ret.Args[1]
+			if v.IsConst("true") || s.NonNil(e) {
+				return // accepting side: C01.2 / C02.1
+			}
+			isCmp := func(t *an.Term) bool { return t != nil && t.IsCallTo("crypto/subtle.ConstantTimeCompare") }
+			if v.IsConst("false") {
+				for _, a := range s.Atoms {
+					if (a.Op == "!=" && isCmp(a.A) && a.B.IsConst("1")) || (a.Op == "!=" && isCmp(a.B) && a.A.IsConst("1")) {
+						return
+					}
+				}
+			}
+			if v.Op == "binop" && v.Aux == "==" && len(v.Args) == 2 && ((isCmp(v.Args[0]) && v.Args[1].IsConst("1")) || (isCmp(v.Args[1]) && v.Args[0].IsConst("1"))) {
+				return
+			}
+			if dc, i := v.CallOf(); dc != nil && i == 0 && strings.HasSuffix(dc.Aux, "scryptauth.v2.Context).Check") {
+				if ec, j := e.CallOf(); ec != nil && ec.K == dc.K && j == 1 {
+					return // verdict and error of the dependency's Check, handed on together
+				}
+			}
+			bad = append(bad, "verdict "+v.K+" without an error is neither the digest comparison's nor the dependency's (path "+s.BlockPath()+")")
+		})
+		if !er.Complete {
+			bad = append(bad, "path limit")
+		}
+		c.Check(len(bad) == 0 && n > 0, "C01.8", fnKey(ck)+"|refusal-provenance", p.Pos(ck.Pos()), fmt.Sprintf("%d paths: a refusal without error is ConstantTimeCompare != 1 (or the dependency's verdict)", n), strings.Join(uniqS(bad), "; "))
+	}
 }
